@@ -572,18 +572,20 @@ package url
 //@   requires okOpts(p)
 //@   requires baseUrl != nil ==> wf(baseUrl)
 //@   requires url == nil ==> stateOverride == NoState
-//@   requires url != nil ==> (wf(url) && baseUrl == nil && (stateOverride == StateSchemeStart || stateOverride == StateHost
+//@   requires url != nil ==> (wf(url) && url.parser == p && baseUrl == nil && (stateOverride == StateSchemeStart || stateOverride == StateHost
 //@            || stateOverride == StateHostname || stateOverride == StatePort || stateOverride == StatePathStart
 //@            || stateOverride == StateQuery || stateOverride == StateFragment))
 //@   requires stateOverride == StateQuery ==> url.query != nil
 //@   requires stateOverride == StateFragment ==> url.fragment != nil
 //@   requires (stateOverride == StatePathStart || stateOverride == StateHost || stateOverride == StateHostname) ==> !url.path.opaque
+//@   requires stateOverride == StatePort ==> (url.host != nil && url.scheme != "file")
 //@   modifies url.*, url.path.*, url.path.p[..], url.validationErrors[..]
 //@   ensures (url == nil && result1 == nil) ==> (result0 != nil && fresh(result0) && wf(result0))   [C02,C04]
 //@   ensures url != nil ==> wf(url)   [C02,C04]
 //@   ensures url != nil ==> (result0 == url || result0 == nil)
 //@   ensures (url == nil && result1 == nil) ==> allFresh(result0)   [C13]
 //@   ensures url != nil ==> keptArrays(url)
+//@   ensures (url != nil && old(shapeP(url))) ==> shapeP(url)   [C04 shape-preserved-by-setters]
 //@   ensures (url != nil && stateOverride == StateFragment) ==> sameButFragment(url)   [C05]
 //@   ensures (url != nil && stateOverride == StateQuery) ==> sameButQuery(url)   [C05]
 //@   ensures (url != nil && stateOverride == StatePort) ==> sameButPort(url)   [C05]
@@ -611,6 +613,18 @@ package url
 //@   loop 1 invariant stateOverride == StatePort ==> (state == StatePort && sameButPort(url))
 //@   loop 1 invariant old(url) != nil ==> url.searchParams == old(url.searchParams)
 //@   loop 1 invariant stateOverridden ==> (old(url) != nil && base == nil)
+//@   loop 1 invariant (old(url) != nil && old(shapeP(url))) ==> shapeP(url)
+//@   loop 1 invariant stateOverride == StatePathStart ==> (state == StatePathStart || state == StatePath)
+//@   loop 1 invariant (stateOverridden && state == StatePort) ==> (url.host != nil && url.scheme != "file")
+//@   loop 1 invariant stateOverride == StateSchemeStart ==> (state == StateSchemeStart || state == StateScheme)
+//@   loop 1 invariant (stateOverride == StateHost || stateOverride == StateHostname) ==> (state == StateHost || state == StateHostname || state == StateFileHost || state == StatePort)
+//@   loop 1 invariant (stateOverride == StateHost || stateOverride == StateHostname) ==> (url.scheme == old(url.scheme) && url.username == old(url.username)
+//@            && url.password == old(url.password) && url.path == old(url.path) && url.path.opaque == old(url.path.opaque)
+//@            && (state != StatePort ==> url.port == old(url.port)))
+//@   loop 1 invariant stateOverride == StatePathStart ==> (url.scheme == old(url.scheme) && url.username == old(url.username) && url.password == old(url.password)
+//@            && url.host == old(url.host) && url.port == old(url.port) && !url.path.opaque)
+//@   loop 1 invariant stateOverride == StateSchemeStart ==> (url.scheme == old(url.scheme) && url.username == old(url.username) && url.password == old(url.password)
+//@            && url.host == old(url.host) && url.port == old(url.port) && url.path == old(url.path) && url.path.opaque == old(url.path.opaque))
 //@   loop 1 invariant stateOverridden ==> (state == StateSchemeStart || state == StateScheme || state == StateHost || state == StateHostname
 //@            || state == StateFileHost || state == StatePort || state == StatePathStart || state == StatePath || state == StateQuery || state == StateFragment)
 //@   loop 1 invariant (state == StateRelative || state == StateRelativeSlash || state == StateSpecialRelativeOrAuthority) ==> base != nil
@@ -722,33 +736,39 @@ package url
 //@   requires wf(u)
 //@   modifies u.*, u.path.*, u.path.p[..], u.validationErrors[..]
 //@   ensures wf(u)   [C02,C04]
+//@   ensures old(shapeP(u)) ==> shapeP(u)   [C04 shape-preserved-by-setters]
 //@   ensures keptArrays(u)
 //@ func (*Url).SetUsername
 //@   requires wf(u)
 //@   modifies u.username
 //@   ensures wf(u)   [C02,C04]
+//@   ensures old(shapeP(u)) ==> shapeP(u)   [C04 shape-preserved-by-setters]
 //@   ensures (u.host == nil || *u.host == "" || u.scheme == "file") ==> u.username == old(u.username)   [C05]
 //@ func (*Url).SetPassword
 //@   requires wf(u)
 //@   modifies u.password
 //@   ensures wf(u)   [C02,C04]
+//@   ensures old(shapeP(u)) ==> shapeP(u)   [C04 shape-preserved-by-setters]
 //@   ensures (u.host == nil || *u.host == "" || u.scheme == "file") ==> u.password == old(u.password)   [C05]
 //@ func (*Url).SetHost
 //@   requires wf(u)
 //@   modifies u.*, u.path.*, u.path.p[..], u.validationErrors[..]
 //@   ensures wf(u)   [C02,C04]
+//@   ensures old(shapeP(u)) ==> shapeP(u)   [C04 shape-preserved-by-setters]
 //@   ensures keptArrays(u)
 //@   ensures old(u.path.opaque) ==> sameUrl(u)   [C05]
 //@ func (*Url).SetHostname
 //@   requires wf(u)
 //@   modifies u.*, u.path.*, u.path.p[..], u.validationErrors[..]
 //@   ensures wf(u)   [C02,C04]
+//@   ensures old(shapeP(u)) ==> shapeP(u)   [C04 shape-preserved-by-setters]
 //@   ensures keptArrays(u)
 //@   ensures old(u.path.opaque) ==> sameUrl(u)   [C05]
 //@ func (*Url).SetPort
 //@   requires wf(u)
 //@   modifies u.*, u.path.*, u.path.p[..], u.validationErrors[..]
 //@   ensures wf(u)   [C02,C04]
+//@   ensures old(shapeP(u)) ==> shapeP(u)   [C04 shape-preserved-by-setters]
 //@   ensures keptArrays(u)
 //@   ensures (old(u.host) == nil || old(*u.host) == "" || old(u.scheme) == "file") ==> sameUrl(u)   [C05]
 //@   ensures (!(old(u.host) == nil || old(*u.host) == "" || old(u.scheme) == "file") && port == "") ==> (u.port == nil && u.decodedPort == 0)   [C05]
@@ -757,12 +777,14 @@ package url
 //@   requires wf(u)
 //@   modifies u.*, u.path.*, u.path.p[..], u.validationErrors[..]
 //@   ensures wf(u)   [C02,C04]
+//@   ensures old(shapeP(u)) ==> shapeP(u)   [C04 shape-preserved-by-setters]
 //@   ensures keptArrays(u)
 //@   ensures old(u.path.opaque) ==> sameUrl(u)   [C05]
 //@ func (*Url).SetHash
 //@   requires wf(u)
 //@   modifies u.*, u.path.*, u.path.p[..], u.validationErrors[..]
 //@   ensures wf(u)   [C02,C04]
+//@   ensures old(shapeP(u)) ==> shapeP(u)   [C04 shape-preserved-by-setters]
 //@   ensures keptArrays(u)
 //@   ensures fragment == "" ==> u.fragment == nil   [C05]
 //@   ensures sameButFragment(u)   [C05]
@@ -770,6 +792,7 @@ package url
 //@   requires wf(u)
 //@   modifies u.*, u.path.*, u.path.p[..], u.validationErrors[..], u.searchParams.params, u.searchParams.params[..]
 //@   ensures wf(u)   [C02,C04]
+//@   ensures old(shapeP(u)) ==> shapeP(u)   [C04 shape-preserved-by-setters]
 //@   ensures keptArrays(u)
 //@   ensures query == "" ==> u.query == nil   [C05,C12]
 //@   ensures u.scheme == old(u.scheme) && u.username == old(u.username) && u.password == old(u.password) && u.host == old(u.host)
